@@ -412,3 +412,9 @@ def coq_equation(c, mr):
     if op == "mul":
         return "c03_point_scalar_mul %d %d %d %s = %s" % (cv["p"], cv["a"], a[1], pt(a[2]), res(mr))
     return None
+
+
+# ops whose answer must not depend on the concrete bytes-like type of their arguments (they agree on the pinned tree;
+# tools/bytearray_probe.py); common.py re-runs a sample of their cases with bytearray arguments
+BYTEARRAY_OPS = {'compute_point', 'pub', 'privkey_int'}
+MEMORYVIEW_OPS = {'pub', 'compute_point', 'privkey_int'}
